@@ -14,8 +14,8 @@ from props import _schedharness as H
 INF = H.INF
 
 # name -> number of jobs
-EXH_QUICK = {"indep2": 2, "indep3": 3, "indep4": 4, "split2": 2, "split3": 3, "split4": 4, "chain3": 3, "split2>b": 4, "split2+chain2": 4, "one+chain2": 3, "chain3+b>split2": 6}
-EXH_THOROUGH = {"fanout": 3, "diamond+one": 5, "indep5": 5, "split5": 5, "split3>b": 6, "chain2+chain2": 4, "chain3+b>split3": 7, "split2+plain>c": 5, "chain6": 6}
+EXH_QUICK = {"indep2": 2, "indep3": 3, "indep4": 4, "split2": 2, "split3": 3, "split4": 4, "chain3": 3, "split2>b": 4, "one+chain2": 3, "chain3+b>split2": 6}
+EXH_THOROUGH = {"split2+chain2": 4, "fanout": 3, "diamond+one": 5, "indep5": 5, "split5": 5, "split3>b": 6, "chain2+chain2": 4, "chain3+b>split3": 7, "split2+plain>c": 5, "chain6": 6}
 SAMPLED = {"one+chain3+b>split3": 8, "split2,split2>c": 8, "split4>b": 8, "indep7": 7, "indep8": 8, "indep10": 10, "split8": 8, "split10": 10, "chain10": 10, "split5>b+split3": 13, "2x chain4 + split2": 10, "indep6": 6, "split6": 6}
 
 
@@ -56,7 +56,7 @@ def tasks_sync(ctx):
 
 
 def tasks_sampled(ctx):
-    n_s = ctx.pick(6, 40)
+    n_s = ctx.pick(4, 40)
     t = []
     for sp, n in SAMPLED.items():
         if not ctx.thorough and n > 10:
@@ -67,7 +67,17 @@ def tasks_sampled(ctx):
     return t
 
 
+def deductive(ctx):
+    """engine D: one call of Submitter.get_runnable_tasks returns at most max_concurrent jobs (the
+    bound across calls - jobs already in flight - is decided by the bounded histories only)"""
+    from contracts import runnable as R
+    from pyvc.verify import verify, summarize
+
+    summarize(ctx, verify(ctx, R.contract()))
+
+
 def run(ctx):
+    deductive(ctx)
     import concurrent.futures as cf
 
     ctx.level = "other"
@@ -105,7 +115,7 @@ def run(ctx):
         )
         d3 = ctx.domain(
             "asynchronous loop: 6-13 jobs (sampled)",
-            bound=f"workflows {SAMPLED if ctx.thorough else {k: v for k, v in SAMPLED.items() if v <= 10}}, k " + ("1..jobs" if ctx.thorough else "in {1,2,3,n/2,n-1,n}") + f", {ctx.pick(6, 40)} random scripts each (visibility delay 0/1/never, several completions per observation), seed {ctx.seed}",
+            bound=f"workflows {SAMPLED if ctx.thorough else {k: v for k, v in SAMPLED.items() if v <= 10}}, k " + ("1..jobs" if ctx.thorough else "in {1,2,3,n/2,n-1,n}") + f", {ctx.pick(4, 40)} random scripts each (visibility delay 0/1/never, several completions per observation), seed {ctx.seed}",
             rule="one case = one random script, distinct by choice list",
             exhaustive=False,
         )
